@@ -97,8 +97,8 @@ class Mon:
         self.rec.count('world.' + w[0])
         return w
 
-    def read_one(self, text):
-        name, eng, ctx = self.pick(text)
+    def read_one(self, text, world=None):
+        name, eng, ctx = self.pick(text) if world is None else world
         st = eng(text)
         node = yq.unwrap(st.expression)
         return node, st.evaluate(context=ctx.create_child_context())
@@ -235,12 +235,15 @@ class Mon:
 
     def constants(self):
         rec = self.rec
-        for text, want in (('true', True), ('false', False), ('null', None)):
-            rec.case(('const', text), nontrivial=True)
+        # every constant in every engine flavour (not left to the rotation)
+        for text, want, world in [(t, w_, wd) for t, w_ in (('true', True), ('false', False), ('null', None))
+                                  for wd in self.worlds[:-1]]:
+            rec.case(('const', text, world[0]), nontrivial=True)
             rec.count('checked.constants')
-            n, v = self.read_one(text)
+            n, v = self.read_one(text, world)
             ok = type(n) is yexpr.Constant and n.value is want and v is want
-            n2, v2 = self.read_one('[%s, {%s => %s}]' % (text, text, text))
+            n2, v2 = self.read_one('[%s, {%s => %s}]' % (text, text, text), world if 'keyword' not in world[0] else self.worlds[0])
+            v2 = list(v2) if isinstance(v2, tuple) else v2      # (the legacy flavour builds tuples)
             ok = ok and v2 == [want, {want: want}] and type(v2[0]) is type(want)
             if not ok:
                 rec.violation('constant:wrong-value', '%s denotes %r / %r' % (text, getattr(n, 'value', n), v),
